@@ -233,6 +233,10 @@ func genValue(rt *rapid.T, t reflect.Type, o ValOpts, depth int) Recipe {
 		return Recipe{F: genFloatBits(rt, false, o)}
 	case reflect.String:
 		return Recipe{S: GenString(rt)}
+	case reflect.Complex64, reflect.Complex128:
+		return Recipe{F: genFloatBits(rt, false, o)}
+	case reflect.Chan, reflect.Func, reflect.UnsafePointer:
+		return Recipe{Nil: rapid.Bool().Draw(rt, "nilref")}
 	case reflect.Ptr:
 		if rapid.IntRange(0, 3).Draw(rt, "nilptr") == 0 || depth > 24 {
 			return Recipe{Nil: true}
@@ -293,6 +297,11 @@ func genValue(rt *rapid.T, t reflect.Type, o ValOpts, depth int) Recipe {
 			kr := genValue(rt, t.Key(), o, depth+1)
 			if t.Key().Kind() == reflect.String && rapid.IntRange(0, 2).Draw(rt, "simplekey") > 0 {
 				kr = Recipe{S: []byte(rapid.SampledFrom([]string{"a", "b", "A", "k1", "k2", "", "z", "<", "é", "10", "9"}).Draw(rt, "key"))}
+			}
+			if t.Key().Kind() == reflect.Interface {
+				// keep interface keys hashable
+				st := TypeDesc{K: rapid.SampledFrom([]string{"string", "int", "bool"}).Draw(rt, "ifacekey")}
+				kr = Recipe{Dyn: &st, Elems: []Recipe{genValue(rt, st.Type(), o, depth+1)}}
 			}
 			if o.avoid("badutf8keys") && t.Key().Kind() == reflect.String {
 				// distinct keys with invalid UTF-8 can collide once replaced by U+FFFD in the output
@@ -423,6 +432,21 @@ func build(v reflect.Value, r Recipe) {
 		v.SetFloat(math.Float64frombits(r.F))
 	case reflect.String:
 		v.SetString(string(r.S))
+	case reflect.Complex64, reflect.Complex128:
+		v.SetComplex(complex(math.Float64frombits(r.F), 1))
+	case reflect.Chan:
+		if !r.Nil {
+			v.Set(reflect.MakeChan(t, 1))
+		}
+	case reflect.Func:
+		if !r.Nil {
+			v.Set(reflect.MakeFunc(t, func([]reflect.Value) []reflect.Value { return nil }))
+		}
+	case reflect.UnsafePointer:
+		if !r.Nil {
+			x := new(int)
+			v.SetPointer(unsafe.Pointer(x))
+		}
 	case reflect.Ptr:
 		if r.Nil || len(r.Elems) == 0 {
 			return
